@@ -1,0 +1,72 @@
+//go:build verif
+
+// Contracts for the gvc verifier (see /verif/DESIGN.md). Comment-only file: it adds no code.
+package gabikeys
+
+//@ # ---- key loading (C18): malformed key files are refused with an error ----
+//@ global forall k in dom(DefaultSystemParameters) :: DefaultSystemParameters[k] != nil
+
+//@ func (*Bases).UnmarshalXML
+//@   property C18
+//@   safety
+//@   requires bl != nil && d != nil
+//@   ensures wellformed: err == nil ==> forall i in 0..len(deref(bl)) :: deref(bl)[i] != nil && val(deref(bl)[i]) >= 0
+//@   loop 0 invariant 0 <= $i && $i <= len(arr) && fresh(arr) && forall j in 0..$i :: arr[j] != nil && fresh(arr[j]) && val(arr[j]) >= 0
+//@   loop 0 modifies elems(arr), onlyfresh("BV")
+//@   mustfail canary: err != nil
+
+//@ func (*PublicKey).parseRevocationKey
+//@   property C18
+//@   requires pubk != nil
+//@   ensures kept: pubk.N == old(pubk.N) && pubk.Z == old(pubk.Z) && pubk.S == old(pubk.S) && pubk.R == old(pubk.R) && pubk.Params == old(pubk.Params)
+//@   modifies pubk.ECDSA
+
+//@ func NewPublicKeyFromBytes
+//@   property C18
+//@   safety
+//@   ensures refused: err != nil ==> result0 == nil
+//@   ensures complete: err == nil ==> result0 != nil && result0.N != nil && result0.Z != nil && result0.S != nil && len(result0.R) >= 1 && result0.Params != nil
+//@   ensures length: err == nil ==> in(DefaultSystemParameters, bitlen(val(result0.N))) && result0.Params == DefaultSystemParameters[bitlen(val(result0.N))]
+//@   mustfail canary: err != nil
+
+//@ func NewPublicKeyFromXML
+//@   property C18
+//@   inline
+
+//@ func NewPublicKeyFromFile
+//@   property C18
+//@   safety
+//@   ensures refused: err != nil ==> result0 == nil
+//@   ensures complete: err == nil ==> result0 != nil && result0.N != nil && result0.Z != nil && result0.S != nil && len(result0.R) >= 1 && result0.Params != nil
+//@   mustfail canary: err != nil
+
+//@ func NewPrivateKeyFromXML
+//@   property C18
+//@   safety
+//@   ensures refused: err != nil ==> result0 == nil
+//@   ensures complete: err == nil ==> result0 != nil && result0.P != nil && result0.Q != nil && result0.PPrime != nil && result0.QPrime != nil && result0.N != nil && result0.Order != nil
+//@   mustfail canary: err != nil
+
+//@ func (*PrivateKey).parseRevocationKey
+//@   property C18
+//@   requires privk != nil
+//@   ensures kept: privk.P == old(privk.P) && privk.Q == old(privk.Q) && privk.PPrime == old(privk.PPrime) && privk.QPrime == old(privk.QPrime) && privk.N == old(privk.N) && privk.Order == old(privk.Order)
+//@   modifies privk.ECDSA
+
+//@ func (*PrivateKey).Validate
+//@   property C18
+//@   safety
+//@   requires privk != nil && privk.P != nil && privk.Q != nil && privk.PPrime != nil && privk.QPrime != nil
+//@   ensures consistent: err == nil ==> val(privk.PPrime) == (val(privk.P) - 1) / 2 && val(privk.QPrime) == (val(privk.Q) - 1) / 2
+//@   ensures safeprimes: err == nil ==> val(privk.P) > 2 && isprime(val(privk.P)) && isprime(val(privk.P) / 2) && val(privk.Q) > 2 && isprime(val(privk.Q)) && isprime(val(privk.Q) / 2)
+//@   modifies nothing
+//@   mustfail canary: err != nil
+
+//@ # a private-key file is created exclusively with mode 0600, or truncated and its mode forced to 0600 before anything is written
+//@ func (*PrivateKey).WriteToFile
+//@   property C18
+//@   requires privk != nil
+//@   assert at os.OpenFile mode: $2 == 384
+//@   assert at os.OpenFile excl: !forceOverwrite ==> $1 == 194
+//@   assert at os.OpenFile trunc: forceOverwrite ==> $1 == 577
+//@   assert at Chmod mode: $1 == 384
